@@ -49,7 +49,17 @@ func (*StringCastingMangler) Unmangle(sf reflect.StructField, vs []FieldValueTup
 		castTo = sf.Type.Elem()
 	}
 
-	return parse.String(str, castTo)
+	parsed, parseErr := parse.String(str, castTo)
+	if parseErr != nil {
+		return parsed, parseErr
+	}
+	// parse.String returns values of the predeclared types (e.g. *uint8
+	// for a field of a named type with uint8 as its underlying type), so
+	// convert to the field's type.
+	if parsed.Type() != sf.Type && parsed.Type().ConvertibleTo(sf.Type) {
+		parsed = parsed.Convert(sf.Type)
+	}
+	return parsed, nil
 }
 
 // ShouldRecurse always returns true in order to walk nested structs.
